@@ -132,13 +132,21 @@ func e2eUniverse(name string) []*synthrepo.Pkg {
 	return nil
 }
 
+// the packages of the repository that is configured at build time only
+func e2eBuildOnly() []*synthrepo.Pkg {
+	return []*synthrepo.Pkg{
+		{Name: "buildtool", Version: "9-r0", Origin: "buildtool", Files: []synthrepo.File{dirF("usr"), regF("usr/bt", "bt", 0o755)}}}
+}
+
 func e2eWorlds(universe string) [][]string {
 	switch universe {
 	case "tiny":
 		return [][]string{{"one"}}
 	case "shared":
 		return [][]string{{"app"}, {"base-layout", "app", "app-doc", "lib1", "lib2", "newlib", "other"}, {"lib1", "newlib", "lib2", "other"},
-			{"base-layout", "lib1"}}
+			{"base-layout", "lib1"},
+			// needs a package that only the BUILD-time repository has (built with build_repo / extra_build only)
+			{"app", "buildtool"}}
 	case "links":
 		return [][]string{{"bbox", "bbox-links"}, {"busybox", "bbox", "bbox-links", "noorigin-a", "noorigin-b", "withorigin"},
 			{"noorigin-a", "noorigin-b", "withorigin"}}
@@ -166,8 +174,7 @@ func newE2EEnv(tmp string) (*e2eEnv, error) {
 		e.repos[u] = r
 	}
 	e.buildDir = filepath.Join(tmp, "repo-buildonly")
-	if _, err := synthrepo.Write(e.buildDir, key, []*synthrepo.Pkg{
-		{Name: "buildtool", Version: "9-r0", Origin: "buildtool", Files: []synthrepo.File{dirF("usr"), regF("usr/bt", "bt", 0o755)}}}); err != nil {
+	if _, err := synthrepo.Write(e.buildDir, key, e2eBuildOnly()); err != nil {
 		return nil, err
 	}
 	return e, nil
@@ -377,7 +384,7 @@ func ownershipOracle(universe string, installed []*apk.Package) (terms []string,
 		inst[p.Name] = true
 	}
 	owner := map[string]string{}
-	for _, p := range e2eUniverse(universe) {
+	for _, p := range append(e2eUniverse(universe), e2eBuildOnly()...) {
 		if !inst[p.Name] {
 			continue
 		}
@@ -430,10 +437,13 @@ func e2eStage(out string, seed uint64, tier string) error {
 			if u == "shared" && wi == 3 {
 				variants = []e2eCase{{}, {Accounts: true}}
 			}
+			if u == "shared" && wi == 4 {
+				variants = []e2eCase{{BuildRepo: true}, {ExtraBuild: true}}
+			}
 			if u == "links" && wi == 1 {
 				variants = []e2eCase{{}, {Accounts: true, Paths: true}}
 			}
-			if tier == "thorough" && u == "shared" {
+			if tier == "thorough" && (u == "shared" || u == "links") && !(u == "shared" && wi == 4) {
 				variants = []e2eCase{{}, {Accounts: true}, {Paths: true, Accounts: true}, {BuildRepo: true}, {ExtraBuild: true}, {BuildRepo: true, Accounts: true, Paths: true}}
 			}
 			for _, v := range variants {
